@@ -106,7 +106,7 @@ def decide(pid, results, tier, t0, level="other", extra_assumptions=None, design
         with open(rp, "w") as f:
             json.dump(fd.to_json(), f, indent=1)
         print("%s:%d: [%s] %s: %s" % (fd.file, fd.line, fd.rule, fd.func, fd.msg))
-        for t in fd.trace[:12]:
+        for t in fd.trace[-12:]:
             print("      " + str(t))
         print("VIOLATION property=%s replay=%s" % (pid, rp))
     # stale known findings (listed but no longer reported) are just noted
